@@ -1317,3 +1317,15 @@ where
         .client_set_send_dont_have(false)
         .build())
 }
+
+/// Verification hooks: compiled only with `--cfg eigerco_lumina_verif` (see /verif).
+#[cfg(eigerco_lumina_verif)]
+#[doc(hidden)]
+#[allow(unused_imports, missing_docs, dead_code, unreachable_pub)]
+pub mod verif {
+    use super::*;
+    pub use super::header_ex::verif as header_ex;
+    pub use super::header_session::verif as header_session;
+    pub use super::shwap::verif as shwap;
+    pub use super::shrex::verif as shrex;
+}
